@@ -2273,3 +2273,5 @@ V("C10", "cancellation_swallowed_while_a_step_is_in_flight", "fire", "R10.z", (U
 V("C10", "benign_cancellation_reraised_after_cleanup", "benign", None, (U, "        if sys.version_info >= (3, 9):\n            value = await asyncio.to_thread(safe_next)\n        else:\n            value = await _to_thread(safe_next)", "        try:\n            if sys.version_info >= (3, 9):\n                value = await asyncio.to_thread(safe_next)\n            else:\n                value = await _to_thread(safe_next)\n        except asyncio.CancelledError:\n            sync_gen.close()\n            raise"))
 V("C09", "watch_callback_fed_from_the_event", "fire", "R09.s", (D, "            def cb(*events):\n                args = (getattr(dep.owner, dep.name) for dep in dependencies)\n                dep_kwargs = {n: getattr(dep.owner, dep.name) for n, dep in kw.items()}\n                return func(*args, **dep_kwargs)", "            def cb(*events):\n                seen = {(id(e.obj), e.name): e.new for e in events}\n                args = (seen.get((id(dep.owner), dep.name), getattr(dep.owner, dep.name)) for dep in dependencies)\n                dep_kwargs = {n: getattr(dep.owner, dep.name) for n, dep in kw.items()}\n                return func(*args, **dep_kwargs)"))
 V("C02", "constructor_links_before_the_last_keyword", "fire", "R02.k", (Z, "            if ref is not None:\n                refs[name] = ref\n                deps[name] = ref_deps\n            if not is_async and not (resolved is Undefined or resolved is Skip):\n                setattr(self, name, resolved)\n        return refs, deps", "            if ref is not None:\n                refs[name] = ref\n                deps[name] = ref_deps\n            if not is_async and not (resolved is Undefined or resolved is Skip):\n                setattr(self, name, resolved)\n            if ref is not None:\n                self_._update_ref(name, ref)\n        return refs, deps"))
+V("C09", "user_keywords_forwarded_to_the_internal_method", "fire", "R09.t", (R, "        new = self._as_rx()._resolve_accessor()\n        return new._clone({'fn': func, 'args': args, 'kwargs': kwargs, 'reverse': False})", "        return self._as_rx()._apply_operator(func, *args, **kwargs)"))
+V("C09", "benign_pipe_operation_built_in_two_steps", "benign", None, (R, "        new = self._as_rx()._resolve_accessor()\n        return new._clone({'fn': func, 'args': args, 'kwargs': kwargs, 'reverse': False})", "        operation = {'fn': func, 'args': args, 'kwargs': kwargs, 'reverse': False}\n        new = self._as_rx()._resolve_accessor()\n        return new._clone(operation)"))
